@@ -40,6 +40,12 @@ pub fn gen(idx: u64, rng: &mut Rng, tier: Tier) -> Scn {
         Some(u128::MAX),
         Some(u128::MAX - 1),
         None,
+        // the following allocations have 16-bit words that are zero (0x1_0000, 0x1_0000_0000, ...): the minimal
+        // wire encoding of such values must not lose their upper bytes
+        Some(0xFFFE),
+        Some(0xFFFF_FFFE),
+        Some(0xFFFF_FFFF_FFFE),
+        Some((1u128 << 64) - 2),
     ];
     let initial = initials[((idx / 6) % initials.len() as u64) as usize];
     // the random default: values a 128-bit draw can produce, incl. ones just below 2^128 and above the width
